@@ -487,8 +487,8 @@ theorem read_table_sound {V : Type} (cv : Conv V) (cfg : Cfg V) (s : Sheet) :
       | some e' => simp
 
 /-- No spurious exceptions. On a well-formed request — a rectangular sheet with at least one column,
-the first attribute and every key attribute read from a column that exists, a key not longer than
-the attribute list, converters that fail with `ValueError` only — the iteration either runs to the
+every key attribute read from a column that exists (the other attributes may be external, optional,
+ranged, in any position), a key not longer than the attribute list, converters that fail with `ValueError` only — the iteration either runs to the
 end of the table or is ended by `ValueError` (a missing required column or a cell its converter
 rejects): no `IndexError`, `AttributeError`, `AssertionError`, `TypeError` or `KeyError`. -/
 theorem only_value_errors {V : Type} (cv : Conv V) (cfg : Cfg V) (n : Nat) (hn : 0 < n) (s : Sheet)
@@ -578,11 +578,10 @@ be ended by `ValueError`. -/
 theorem std_only_value_errors (cfg : Cfg StdV) (n : Nat) (hn : 0 < n) (s : Sheet)
     (hrect : ∀ r ∈ s, r.length = n) (hct : ∀ r ∈ cfg.rules, ∀ ct, r.ct? = some ct → ct ≤ 8)
     (hnum : cfg.numId ≤ cfg.rules.length)
-    (hanchor : ∃ t ct d, cfg.rules[0]? = some (.col t ct d) ∧ t ∈ titlesOf s)
     (hkeys : ∀ k, k < cfg.numId → ∃ t ct d, cfg.rules[k]? = some (.col t ct d) ∧ t ∈ titlesOf s) :
     (iterTable stdConv cfg s).err = none ∨ (iterTable stdConv cfg s).err = some .valueError :=
   only_value_errors stdConv cfg n hn s hrect
-    ⟨fun r hr ct hc v e he => stdConv_error ct (hct r hr ct hc) v e he, hnum, hanchor, hkeys⟩
+    ⟨fun r hr ct hc v e he => stdConv_error ct (hct r hr ct hc) v e he, hnum, hkeys⟩
 
 /-! ## Non-vacuity: the hypotheses are satisfiable on concrete sheets (evaluated by the kernel) -/
 
@@ -629,7 +628,7 @@ example : ∃ s', fillSheet .blankAll ladderSheet = .ok s' ∧ s' ≠ ladderShee
 example : (iterTable stdConv ⟨.blankAll, true, 1, ladderRules⟩ ladderSheet).err = none ∨
     (iterTable stdConv ⟨.blankAll, true, 1, ladderRules⟩ ladderSheet).err = some .valueError := by
   refine std_only_value_errors ⟨.blankAll, true, 1, ladderRules⟩ 3 (by decide) ladderSheet
-    (by decide +kernel) ?_ (by decide) ⟨"Id".toList, 1, none, rfl, by decide +kernel⟩ ?_
+    (by decide +kernel) ?_ (by decide) ?_
   · intro r hr ct hc
     simp only [ladderRules, List.mem_cons, List.not_mem_nil, or_false] at hr
     rcases hr with rfl | rfl | rfl | rfl <;> simp [Rule.ct?] at hc <;> omega
